@@ -2,7 +2,11 @@
      wal <dir> <crc>      recovery step alone on <dir>/db + <dir>/db-wal (model: Proto.recover_open = Replay.recover mode 1
                           under the options <crc> of the recovering process)
      chk <dir> <crc>      model only: parse the intact log, encode back, wf_log, crc_ok, savepoint offsets
-     scan <dir>           model only: fpos rpos *)
+     scan <dir>           model only: fpos rpos
+     crash <dir> <crc> <bufsz> <i>   C04_recover_is_prefix on a real trace: history with operation brackets (dir/eventsb),
+                          Proto.after_effects after the first i effects of Proto.run from the files found after open
+                          (the kernel's view after a kill there), recovery of those, the theorem's hypotheses and its
+                          conclusion evaluated (done_items, sync_floor, state_after) *)
 let zb = Array.init 256 z_of_int
 let read_file p =
   try
@@ -34,7 +38,77 @@ let fnv ops =
   Printf.sprintf "%016Lx" !h
 let vs = function VOk -> "0" | VCorrupt -> "CORRUPTED_WAL" | VFault -> "FAULT"
 let cfg_of crc = { c_bufsz = z_of_int ((if crc land 2 <> 0 then 4096 else 8 * 1024 * 1024) - 12); c_ccrc = crc land 1 = 1 }
+let parse_ev l = match split_ws l with
+  | ["W"; off; h] -> Some (VWrite (z_of_string off, bytes_of_hex h))
+  | ["S"; off; v; len] -> Some (VSet (z_of_string off, z_of_string v, z_of_string len))
+  | ["C"; off; len; noff] -> Some (VCopy (z_of_string off, z_of_string len, z_of_string noff))
+  | ["R"; o; n] -> Some (VResize (z_of_string o, z_of_string n))
+  | ["Y"] -> Some VSynced
+  | ["P"; sync] -> Some (VSavepoint (Z0, sync = "1"))
+  | ["K"] -> Some (VCheckpoint Z0)
+  | _ -> None
+(* history with operation brackets: "(" listener calls ")" per operation, P / K lines between operations *)
+let read_items path : hitem list =
+  let items = ref [] and cur = ref None in
+  List.iter (fun l -> match split_ws l with
+    | ["("] -> cur := Some []
+    | [")"] -> (match !cur with Some evs -> items := HOp (List.rev evs) :: !items; cur := None | None -> ())
+    | _ -> (match parse_ev l with
+        | None -> ()
+        | Some e -> (match !cur with
+            | Some evs -> cur := Some (e :: evs)
+            | None -> (match e with
+                | VSavepoint (ts, sy) -> items := HSync (ts, sy) :: !items
+                | VCheckpoint ts -> items := HCkpt ts :: !items
+                | e -> items := HOp [e] :: !items)))) (String.split_on_char '\n' (read_file path));
+  List.rev !items
+let rec take n l = if n <= 0 then [] else match l with [] -> [] | x :: t -> x :: take (n - 1) t
+(* timestamps and segment checksums masked, as in `proto` *)
+let masked_crc (bytes : z list) =
+  let log = Array.of_list (List.map int_of_z bytes) in
+  let n = Array.length log in
+  let pos = ref 0 in
+  (try while !pos < n do
+    let op = log.(!pos) in
+    let rd32 o = log.(o) lor (log.(o+1) lsl 8) lor (log.(o+2) lsl 16) lor (log.(o+3) lsl 24) in
+    if op = 127 then (for k = 4 to 7 do log.(!pos + k) <- 0 done; pos := !pos + 12)
+    else if op = 5 then (for k = 4 to 11 do if !pos + k < n then log.(!pos + k) <- 0 done; pos := !pos + 12)
+    else if op = 1 then pos := !pos + 24 else if op = 2 then pos := !pos + 28
+    else if op = 3 then pos := !pos + 20 + rd32 (!pos + 8)
+    else if op = 4 then pos := !pos + 20 else if op = 6 then pos := !pos + 4 else raise Exit
+  done with _ -> ());
+  zcrc_of_zlist (List.map (fun b -> zb.(b land 255)) (Array.to_list log))
 let handle = function
+  | ["crash"; dir; crc; bufsz; i] ->
+    let ccrc = (int_of_string crc) land 1 = 1 in
+    let c = { c_bufsz = z_of_string bufsz; c_ccrc = ccrc } in
+    let s0 = { p_buf = []; p_log = zlist_of_string (read_file (dir ^ "/wal0")); p_disk = zlist_of_string (read_file (dir ^ "/db0"));
+               p_rfoff = Z0; p_stage = Z0; p_fatal = false } in
+    let h = read_items (dir ^ "/eventsb") in
+    let (_, fx) = run c s0 (flat h) in
+    let n = int_of_string i in
+    let (log, disk) = after_effects s0.p_log s0.p_disk (take n fx) in
+    let ((v, m), _) = recover ccrc (z_of_int 1) Z0 log disk in
+    let hyp = [hist_shape h; no_growth_in_ops h; no_copy_in_ops h; hist_range h; cfg_ok c] in
+    let dn = int_of_nat (done_items c s0 h (nat_of_int n)) in
+    let fl = int_of_nat (sync_floor (take dn h)) in
+    (* the state at open = what the recovery of the files found at open yields; prefix states are counted from it *)
+    let ((_, d_open), _) = recover ccrc (z_of_int 1) Z0 s0.p_log s0.p_disk in
+    let hi = min (dn + 1) (List.length h) in
+    let thm =
+      if not (List.for_all (fun b -> b) hyp) then "n/a"
+      else if v <> VOk then "fail-rc"
+      else begin
+        let ok = ref false in
+        for k = fl to hi do
+          if not !ok then (match state_after d_open h (nat_of_int k) with Some mk when mk = m -> ok := true | _ -> ())
+        done;
+        if !ok then "ok" else "fail"
+      end in
+    Printf.sprintf "crash n=%d of=%d log=%d:%08x disk=%d:%08x rc=%s main=%d:%08x hyp=%s items=%d done=%d floor=%d thm=%s"
+      n (List.length fx) (List.length log) (masked_crc log) (List.length disk) (zcrc_of_zlist disk) (vs v)
+      (List.length m) (zcrc_of_zlist m) (String.concat "" (List.map (fun b -> if b then "1" else "0") hyp))
+      (List.length h) dn fl thm
   | ["wal"; dir; crc; "ops"] ->
     (* decoding half only (Replay.replay_ops): verdict and applied-record trace *)
     let wal = read_file (dir ^ "/db-wal") in
@@ -54,8 +128,8 @@ let handle = function
     (match parse wal with
      | None -> "chk parse=fail"
      | Some rs ->
-       Printf.sprintf "chk parse=ok nrec=%d roundtrip=%b wf=%b crc=%b crcfull=%b layout=%b sp=%s" (List.length rs)
-         (encode rs = wal) (wf_log rs) (crc_ok rs) (crc_full rs) layout_ok
+       Printf.sprintf "chk parse=ok nrec=%d roundtrip=%b wf=%b crc=%b crcfull=%b fit=%b layout=%b sp=%s" (List.length rs)
+         (encode rs = wal) (wf_log rs) (crc_ok rs) (crc_full rs) (sep_fit rs Z0 (size rs)) layout_ok
          (String.concat "," (List.map string_of_z (sp_offsets rs Z0))))
   | ["scan"; dir] ->
     let (f, r) = scan (zlist_of_string (read_file (dir ^ "/db-wal"))) in
@@ -114,6 +188,17 @@ let handle = function
       | _ -> None) (String.split_on_char '\n' (read_file (dir ^ "/" ^ f))) in
     let (s1, _) = run c s0 (evs "events") in
     let (img, s2) = backup_run c s1 Z0 Z0 (evs "eventsM") (evs "eventsA") in
+    (* C08_backup_image_is_snapshot evaluated on this run: when the writers' events satisfy its hypotheses (no growth,
+       no COPY), the image must open to the state at the call + every store of eventsM and eventsA *)
+    let evw = evs "eventsM" @ evs "eventsA" in
+    let snap =
+      if not (List.for_all ev_okb evw && cfg_ok c) then "n/a" else begin
+        let (s1c, _) = checkpoint c (set_stage s1 (z_of_int 2)) false Z0 in
+        let ((v, m), _) = open_image ccrc img in
+        match apply_ops s1c.p_disk (evs_ops evw) with
+        | Some want when v = VOk && want = m -> "ok"
+        | _ -> "fail"
+      end in
     let a = Array.of_list (List.map int_of_z img) in
     let n = Array.length a in
     let rd k o = let r = ref 0 in for i = k - 1 downto 0 do r := (!r lsl 8) lor a.(o + i) done; !r in
@@ -128,7 +213,7 @@ let handle = function
       else if op = 4 then pos := !pos + 20 else if op = 6 then pos := !pos + 4 else raise Exit
     done with _ -> ());
     let mcrc = zcrc_of_zlist (List.map (fun b -> zb.(b land 255)) (Array.to_list a)) in
-    Printf.sprintf "bkp image=%d:%08x main=%d livelog=%d rfoff=%s" n mcrc mlen (List.length s2.p_log) (string_of_z s2.p_rfoff)
+    Printf.sprintf "bkp image=%d:%08x main=%d livelog=%d rfoff=%s snap=%s" n mcrc mlen (List.length s2.p_log) (string_of_z s2.p_rfoff) snap
   | ["img"; dir; crc] ->
     (* Backup.open_image on <dir>/bkp *)
     let img = zlist_of_string (read_file (dir ^ "/bkp")) in
